@@ -167,6 +167,13 @@ def run_tlc(workdir, root, consts, spec=None, init=None, next_=None, invariants=
                 r.deadlock = True
     r.printed = [l for _, l in sorted(r.printed)]
     r.stdout = "\n".join(other)
+    try:
+        # a generator's output can be gigabytes of printed cases; what is needed of it has been taken
+        if os.path.getsize(outp) > 200 * 1024 * 1024:
+            with open(outp, "w") as fo:
+                fo.write("\n".join(other[-2000:]) + "\n(%d printed values removed, %d of them used)\n" % (r.nprinted, len(r.printed)))
+    except OSError:
+        pass
     if r.violated or r.deadlock:
         i = r.stdout.find("Error:")
         r.trace = r.stdout[i:i + 20000]
